@@ -201,6 +201,34 @@ def program(rep, index):
         rep.ob("C18.P10 no-state-carried-from-one-run's-XML-to-the-next", inst, got == want,
                _diff_files(want, got) or "%d files, identical to a fresh generator's output for the edited tree" % len(want))
     rep.floor("edited-specification evaluations", 2)
+    # P11: ... nor from a run that failed: the first run meets an ill-formed tree (a struct field of an undeclared type:
+    # the error comes during emission, after indexing has filled the generator's tables), the caller catches the
+    # error, repairs the specification and runs the same generator again
+    def broken_tree():
+        files = program_tree()
+        files["pub"].children.append(Elem("struct", {"name": "BrokenByTheEdit"}, [Elem("field", {"name": "f", "type": "NoSuchType"})]))
+        return files
+    after = run_program(session, [broken_tree, edited_tree], order=dirs, runs=2, fresh_output=True, keep_going=True)
+    rep.count("failed-run evaluations", len(after))
+    n_failed_first = 0
+    for o in after:
+        inst = "generate() on an ill-formed tree (caught), then on the repaired tree with the same instance, path[%s]" % o.path()
+        if o.rejected:
+            rep.ob("C18.P11 no-state-carried-over-from-a-failed-run", inst, False,
+                   "the second run is rejected with %s at %s although a fresh generator accepts the repaired tree" % (o.exc, o.exc_site))
+            continue
+        first, second = o.value
+        if not (isinstance(first, tuple) and first[0] == "raised"):
+            raise AnalysisError("C18.P11: the ill-formed reference tree is accepted (C17's business); no failed run to continue from")
+        n_failed_first += 1
+        if isinstance(second, tuple):
+            rep.ob("C18.P11 no-state-carried-over-from-a-failed-run", inst, False,
+                   "the second run raises %s although a fresh generator accepts the repaired tree" % _exc_text(second[1]))
+            continue
+        got = {f["path"]: f["content"] for f in second.files}
+        rep.ob("C18.P11 no-state-carried-over-from-a-failed-run", inst, got == want,
+               _diff_files(want, got) or "%d files, identical to a fresh generator's output for the repaired tree" % len(want))
+    rep.floor("failed-run evaluations", 1)
     # P9: a set has no order -- the same tree evaluated with every set iterated in insertion order, reversed, rotated
     witness = None
     base = None
@@ -401,8 +429,13 @@ def static_rules(rep, index, set_order_witness=None):
         for n in ast.walk(ast.Module(body=tries[0].finalbody, type_ignores=[])):
             if isinstance(n, ast.Call) and isinstance(n.func, ast.Attribute) and n.func.attr == "clear" and isinstance(n.func.value, ast.Attribute):
                 cleared.add(n.func.value.attr)
-    rep.ob("C18.D3 state-cleared-on-every-exit", "ProtocolCodeGenerator.generate", ok_try and set(accs) <= cleared,
-           "accumulators %s, cleared in finally: %s" % (sorted(accs), sorted(cleared)), loc=index.loc(m, fn))
+    if not (ok_try and set(accs) <= cleared):
+        # the idiom (one try whose finally clears every accumulator) is a sufficient condition only; what it stands for
+        # is decided by P10 / P11 (the second run on one instance, after an edit and after a failed run, equals a fresh run)
+        rep.note("C18.D3: generate() does not clear %s in one finally block; state carried between runs is decided by P10/P11" % sorted(set(accs) - cleared))
+    else:
+        rep.ob("C18.D3 state-cleared-on-every-exit", "ProtocolCodeGenerator.generate", True,
+               "accumulators %s, cleared in finally: %s" % (sorted(accs), sorted(cleared)), loc=index.loc(m, fn))
     # resolution of types is reachable from the emission phase only
     reach = _reachable(index, GEN_PKG + ".generate.code_generator", "ProtocolCodeGenerator", "_index_protocol_files")
     resolves = sorted(x for x in reach if x.endswith(("get_type", "_create_type", "_create_custom_type", "_create_struct_type", "_create_enum_type")))
@@ -510,6 +543,13 @@ def _reachable(index, modname, clsname, start):
     return seen
 
 
+def _exc_text(exc):
+    try:
+        return "%s(%s)" % (getattr(getattr(exc, "cls", None), "name", type(exc).__name__), ", ".join(str(a)[:80] for a in getattr(exc, "args", [])))
+    except Exception:
+        return repr(exc)[:120]
+
+
 def entry_point(rep, index):
     """E1: the generator only adds and overwrites files, so the tree left behind is a function of the XML alone only if
     the output directory is emptied first: in protocol.py (the command every build hook and script runs) every path of
@@ -552,6 +592,23 @@ def entry_point(rep, index):
                     if (isinstance(f, ast.Attribute) and f.attr == "rmtree" or isinstance(f, ast.Name) and f.id == "rmtree") and x.value.args:
                         cleaning[name] = local_value(fn, x.value.args[0])
                         clean_line[name] = x.lineno
+    # a function that unconditionally calls a cleaning function cleans too (to a fixed point)
+    changed = True
+    while changed:
+        changed = False
+        for name, fn in fns.items():
+            if name in cleaning:
+                continue
+            for st in fn.body:
+                if isinstance(st, ast.Expr) and isinstance(st.value, ast.Call) and isinstance(st.value.func, ast.Name) and st.value.func.id in cleaning:
+                    cleaning[name], clean_line[name] = cleaning[st.value.func.id], st.lineno
+                    changed = True
+                    break
+    for name, fn in fns.items():
+        # ... and one that calls a generating function generates
+        for c in calls(fn):
+            if isinstance(c.func, ast.Name) and c.func.id in generating and name not in generating and c.func.id != name:
+                generating[name], gen_line[name] = generating[c.func.id], c.lineno
     main = next((st for st in tree.body if isinstance(st, ast.If) and isinstance(st.test, ast.Compare)
                  and isinstance(st.test.left, ast.Name) and st.test.left.id == "__name__"), None)
     if main is None or not generating:
